@@ -3,32 +3,33 @@
 use super::*;
 use crate::verif_kani::*;
 
-static mut ARENA: [u8; 320] = [0xEE; 320];
-static mut K: usize = 0;
-static mut FAIL: bool = false;
-static mut FREED: *mut c_void = core::ptr::null_mut();
-static mut FREE_CALLS: u32 = 0;
-static mut ALLOC_CALLS: u32 = 0;
-static mut REQ: u32 = 0;
-static mut OPAQUE_SEEN: usize = 0;
+/// user allocator context, reached through `opaque` (no statics: a native replay runs several tests in one process)
+struct Ctx {
+    arena: [u8; 320],
+    k: usize,
+    fail: bool,
+    freed: usize,
+    free_calls: u32,
+    alloc_calls: u32,
+    req: u32,
+}
 
 unsafe extern "C" fn za(o: *mut c_void, items: c_uint, size: c_uint) -> *mut c_void {
-    unsafe {
-        REQ = items * size;
-        ALLOC_CALLS += 1;
-        OPAQUE_SEEN = o as usize;
-        if FAIL {
-            return core::ptr::null_mut();
-        }
-        (core::ptr::addr_of_mut!(ARENA) as *mut u8).add(64 + K) as *mut c_void
+    let c = unsafe { &mut *(o as *mut Ctx) };
+    c.req = items * size;
+    c.alloc_calls += 1;
+    if c.fail {
+        return core::ptr::null_mut();
     }
+    unsafe { c.arena.as_mut_ptr().add(64 + c.k) as *mut c_void }
 }
 unsafe extern "C" fn zf(o: *mut c_void, p: *mut c_void) {
-    unsafe {
-        FREED = p;
-        FREE_CALLS += 1;
-        OPAQUE_SEEN ^= o as usize; // 0 when the same handle is passed back
-    }
+    let c = unsafe { &mut *(o as *mut Ctx) };
+    c.freed = p as usize;
+    c.free_calls += 1;
+}
+fn new_ctx(k: usize, fail: bool) -> Ctx {
+    Ctx { arena: [0xEE; 320], k, fail, freed: 0, free_calls: 0, alloc_calls: 0, req: 0 }
 }
 
 /// any misalignment of the block zalloc returns, any size <= 64, any alignment 1..=64, zalloc may fail:
@@ -43,41 +44,37 @@ fn ka1_alloc_shim() {
     let k: usize = kani::any();
     kani::assume(k < 64);
     let fail: bool = kani::any();
-    unsafe {
-        K = k;
-        FAIL = fail;
-    }
+    let mut ctx = new_ctx(k, fail);
+    let ctxp = &mut ctx as *mut Ctx;
     let size: usize = kani::any();
     kani::assume(size >= 1 && size <= 64);
     let align_log: u32 = kani::any();
     kani::assume(align_log <= 6);
     let align = 1usize << align_log;
     let layout = Layout::from_size_align(size, align).unwrap();
-    let opaque = 0x5a5a_usize as *mut c_void;
-    let a = Allocator { zalloc: za, zfree: zf, opaque, _marker: PhantomData };
+    let a = Allocator { zalloc: za, zfree: zf, opaque: ctxp as *mut c_void, _marker: PhantomData };
     let p = a.allocate_layout(layout) as *mut u8;
-    let base = unsafe { (core::ptr::addr_of_mut!(ARENA) as *mut u8).add(64 + k) };
-    assert!(unsafe { ALLOC_CALLS } == 1);
+    let base = unsafe { (*ctxp).arena.as_mut_ptr().add(64 + k) };
+    assert!(unsafe { (*ctxp).alloc_calls } == 1);
     if fail {
         assert!(p.is_null());
-        assert!(unsafe { FREE_CALLS } == 0, "a failed allocation releases nothing");
+        assert!(unsafe { (*ctxp).free_calls } == 0, "a failed allocation releases nothing");
         return;
     }
     assert!(!p.is_null());
-    let req = unsafe { REQ } as usize;
+    let req = unsafe { (*ctxp).req } as usize;
     assert!(p as usize >= base as usize + core::mem::size_of::<*mut c_void>(), "room for the stash word below the pointer");
     assert!(p as usize + size <= base as usize + req, "the user block lies inside what zalloc handed out");
     assert!((p as usize) % align == 0, "aligned");
     // the user may write all `size` bytes without touching the stash
     unsafe { core::ptr::write_bytes(p, 0x11, size) };
     unsafe { a.deallocate(p, size) };
-    assert!(unsafe { FREE_CALLS } == 1, "released exactly once");
-    assert!(unsafe { FREED } as usize == base as usize, "zfree receives the pointer zalloc returned");
-    assert!(unsafe { OPAQUE_SEEN } == 0, "same opaque handle");
+    assert!(unsafe { (*ctxp).free_calls } == 1, "released exactly once");
+    assert!(unsafe { (*ctxp).freed } == base as usize, "zfree receives the pointer zalloc returned, through the same opaque handle");
     // arena outside the block untouched
     let i: usize = kani::any();
     kani::assume(i < 320 && (i < 64 + k || i >= 64 + k + req));
-    assert!(unsafe { ARENA[i] } == 0xEE);
+    assert!(unsafe { (*ctxp).arena[i] } == 0xEE);
     kani::cover!(k == 63 && align == 64 && size == 64);
     kani::cover!(k == 0 && align == 1);
 }
@@ -92,11 +89,13 @@ fn ka1_alloc_overflow_and_null() {
     let len: usize = kani::any();
     // align 1: 8 bytes for the stash word + 1 for alignment are added to the request
     kani::assume(len > u32::MAX as usize - 9);
-    let a = Allocator { zalloc: za, zfree: zf, opaque: core::ptr::null_mut(), _marker: PhantomData };
+    let mut ctx = new_ctx(0, false);
+    let ctxp = &mut ctx as *mut Ctx;
+    let a = Allocator { zalloc: za, zfree: zf, opaque: ctxp as *mut c_void, _marker: PhantomData };
     let r = a.allocate_slice_raw::<u8>(len);
     assert!(r.is_none());
-    assert!(unsafe { ALLOC_CALLS } == 0);
+    assert!(unsafe { (*ctxp).alloc_calls } == 0);
     unsafe { a.deallocate::<u8>(core::ptr::null_mut(), 10) };
-    assert!(unsafe { FREE_CALLS } == 0);
+    assert!(unsafe { (*ctxp).free_calls } == 0);
     kani::cover!(len == usize::MAX);
 }
